@@ -1,27 +1,44 @@
-// C08 harness: the real Tokenizer (TokenList + Tokenizer::simplifyTokens1, as test/helpers.h SimpleTokenizer
-// drives it) run in-process on a printed scope program; prints the variable id of every tracked name token.
+// C08 harness: the real Tokenizer run in-process on a printed scope program (as test/helpers.h SimpleTokenizer drives it:
+// TokenList + Tokenizer); prints the variable id of every tracked name token at two stages.
 //
 // op line:  <c|cpp> <hexsource>
-// output :  ok <line>:<varid> <line>:<varid> ...      one entry per token spelled v<digits>, in token order
+// output :  ok A <line>:<varid> ... | B <line>:<varid> ...
+//              A = after Tokenizer::simplifyTokenList1 (the token-list passes up to and including setVarId: what the
+//                  model of VariableMap / setVarIdPass1 describes)
+//              B = after the complete Tokenizer::simplifyTokens1 (AST, SymbolDatabase, value flow: the ids --dump shows;
+//                  SymbolDatabase::createSymbolDatabaseEnums may clear ids)
+//              one entry per token spelled v<digits>, in token order
 //           err <what>                                 the tokenizer rejected the program
 // The generator prints every tracked name occurrence on a line of its own, so the line number identifies the
 // occurrence even though simplifyVarDecl duplicates name tokens (`int x = e;` -> `int x ; x = e ;`).
+//
+// simplifyTokenList1 is a private member; the harness (only the harness) reads tokenize.h with `private` spelled
+// `public` to call it - every header tokenize.h includes is included before, untouched.
 #include "common.h"
+#include <cctype>
+#include <cstdint>
+#include <iosfwd>
+#include <list>
+#include <map>
+#include <set>
+#include <string>
+#include <vector>
+#include "config.h"
 #include "token.h"
 #include "tokenlist.h"
-#include "tokenize.h"
 #include "settings.h"
 #include "errorlogger.h"
 #include "errortypes.h"
 #include "standards.h"
-#include <cctype>
+#define private public
+#include "tokenize.h"
+#undef private
 
 namespace {
     class Quiet : public ErrorLogger {
     public:
-        std::string first;
         void reportOut(const std::string&, Color) override {}
-        void reportErr(const ErrorMessage& msg) override { if (first.empty()) first = msg.id; }
+        void reportErr(const ErrorMessage&) override {}
         void reportMetric(const std::string&) override {}
     };
 }
@@ -32,6 +49,39 @@ static bool tracked(const std::string& s) {
     return true;
 }
 
+static std::string ids(const Tokenizer& tokenizer) {
+    std::string out;
+    for (const Token* t = tokenizer.tokens(); t; t = t->next()) {
+        if (t->isName() && tracked(t->str()))
+            out += " " + std::to_string(t->linenr()) + ":" + std::to_string(t->varId());
+    }
+    return out;
+}
+
+// stage 0: token list passes only; stage 1: everything
+static std::string run(const Settings& settings, bool cpp, const std::string& code, int stage) {
+    Quiet logger;
+    try {
+        Tokenizer tokenizer{TokenList{settings, cpp ? Standards::Language::CPP : Standards::Language::C}, logger};
+        const char* file = cpp ? "test.cpp" : "test.c";
+        tokenizer.list.appendFileIfNew(file);
+        if (!tokenizer.list.createTokensFromBuffer(code.data(), code.size()))
+            return "!createTokens";
+        if (stage == 0) {
+            tokenizer.fillTypeSizes();
+            if (!tokenizer.simplifyTokenList1(file))
+                return "!simplifyTokenList1";
+        } else if (!tokenizer.simplifyTokens1("")) {
+            return "!simplifyTokens1";
+        }
+        return ids(tokenizer);
+    } catch (const InternalError& e) {
+        return "!InternalError:" + e.id;
+    } catch (const std::exception&) {
+        return "!exception";
+    }
+}
+
 int main() {
     Settings settings;
     std::string line;
@@ -40,28 +90,11 @@ int main() {
         if (f.size() != 2 || (f[0] != "c" && f[0] != "cpp")) { std::cout << "bad-op" << std::endl; continue; }
         const bool cpp = f[0] == "cpp";
         const std::string code = unhex(f[1]);
-        Quiet logger;
-        std::string out;
-        try {
-            Tokenizer tokenizer{TokenList{settings, cpp ? Standards::Language::CPP : Standards::Language::C}, logger};
-            tokenizer.list.appendFileIfNew(cpp ? "test.cpp" : "test.c");
-            if (!tokenizer.list.createTokensFromBuffer(code.data(), code.size())) {
-                out = "err createTokens";
-            } else if (!tokenizer.simplifyTokens1("")) {
-                out = "err simplifyTokens1";
-            } else {
-                out = "ok";
-                for (const Token* t = tokenizer.tokens(); t; t = t->next()) {
-                    if (t->isName() && tracked(t->str()))
-                        out += " " + std::to_string(t->linenr()) + ":" + std::to_string(t->varId());
-                }
-            }
-        } catch (const InternalError& e) {
-            out = "err InternalError:" + e.id;
-        } catch (const std::exception& e) {
-            out = std::string("err exception");
-        }
-        std::cout << out << std::endl;
+        const std::string a = run(settings, cpp, code, 0);
+        const std::string b = run(settings, cpp, code, 1);
+        if (!a.empty() && a[0] == '!') std::cout << "err A " << a.substr(1) << std::endl;
+        else if (!b.empty() && b[0] == '!') std::cout << "err B " << b.substr(1) << std::endl;
+        else std::cout << "ok A" << a << " | B" << b << std::endl;
     }
     return 0;
 }
